@@ -369,3 +369,157 @@ def isolation_after_commit(kind: int, mv: int, sv: int, val: str, val2: str) -> 
     except Exception as ex:  # noqa: BLE001
         return exc_result(orc, ex)
     return orc.result()
+
+
+def _caught_body(pm, case, val, with_rejected):
+    """One valid modification and (with_rejected) one call the API rejects, handled by the application INSIDE the body."""
+    raised = False
+    if case in (0, 1):
+        good = pm.entities.by_handle('m0')
+        good.state.MetricValue.Value = val
+        bad = pm.entities.by_handle('ac0' if case == 0 else 'pc0')
+        with pm.metric_state_transaction(set_determination_time=False) as tr:
+            st = tr.get_state('m1')
+            st.mk_metric_value()
+            st.MetricValue.Value = val
+            if with_rejected:
+                try:
+                    tr.write_entities([good, bad])
+                except Exception:  # noqa: BLE001
+                    raised = True
+    elif case == 2:
+        good = pm.entities.by_handle('ac0')
+        good.state.Presence = True
+        bad = pm.entities.by_handle('m1')      # (not m0: the error text renders the state and would realise the symbolic sv)
+        with pm.alert_state_transaction() as tr:
+            st = tr.get_state('as0')
+            st.ActivationState = pm_types.AlertActivation.PAUSED
+            if with_rejected:
+                try:
+                    tr.write_entities([good, bad])
+                except Exception:  # noqa: BLE001
+                    raised = True
+    elif case == 3:
+        ent = pm.entities.by_handle('pc0')
+        ent.states['pcs0'].CoreData.Givenname = val
+        with pm.context_state_transaction() as tr:
+            st = tr.get_context_state('lcs0')
+            st.LocationDetail.Bed = val
+            if with_rejected:
+                try:
+                    tr.write_entity(ent, ['pcs0', 'nope'])
+                except Exception:  # noqa: BLE001
+                    raised = True
+    elif case == 4:
+        e0 = pm.entities.by_handle('m0')
+        e0.descriptor.SafetyClassification = pm_types.SafetyClassification.MED_B
+        e1 = pm.entities.by_handle('m1')
+        e1.descriptor.SafetyClassification = pm_types.SafetyClassification.MED_A
+        with pm.descriptor_transaction() as tr:
+            tr.write_entity(e1)
+            if with_rejected:
+                try:
+                    tr.write_entities([e0, e1])     # e1 is already in the updated set
+                except Exception:  # noqa: BLE001
+                    raised = True
+    else:
+        with pm.context_state_transaction() as tr:
+            st = tr.get_context_state('pcs0')
+            st.CoreData.Givenname = val
+            if with_rejected:
+                try:
+                    if case == 5:
+                        tr.mk_context_state('lc0', 'lcs0')
+                    else:
+                        tr.get_context_state('nope')
+                except Exception:  # noqa: BLE001
+                    raised = True
+    return raised
+
+
+def rejected_call_caught(case: int, mv: int, sv: int, val: str) -> str:
+    """
+    The API rejects a call and the application handles the exception INSIDE the transaction body, which then ends normally.
+    A rejected call has no effect: the outcome (MDIB snapshot, versions, number of reports) equals that of the same body without
+    the rejected call, run on an identical second MDIB. 0 metric write_entities([valid, wrong state type]), 1 metric
+    write_entities([valid, multi-state entity]), 2 alert write_entities([valid, wrong type]), 3 context write_entity(entity,
+    [valid handle, unknown handle]), 4 descriptor write_entities([new, already written]), 5 mk_context_state with an existing
+    handle, 6 get_context_state of an unknown handle.
+    pre: 0 <= case <= 6
+    pre: mv >= 0
+    pre: sv >= 0
+    pre: len(val) <= 2
+    post: __return__ == 'ok'
+    """
+    orc = Oracle()
+    try:
+        pm, cap = _mk(mv, sv)
+        pm2, cap2 = _mk(mv, sv)
+        raised = _caught_body(pm, case, val, True)
+        _caught_body(pm2, case, val, False)
+        orc.check(raised, 'invalid-call-accepted')
+        a, b = _snap(pm), _snap(pm2)
+        for key in ('version', 'sizes', 'descriptors', 'states', 'context_states', 'saved_versions'):
+            orc.check(a[key] == b[key], 'rejected-call-had-an-effect:' + key)
+        orc.check(len(cap.sent) == len(cap2.sent), 'rejected-call-had-an-effect:reports')
+        orc.check(_idx_ok(pm), 'index!=scan')
+    except Exception as ex:  # noqa: BLE001
+        return exc_result(orc, ex)
+    return orc.result()
+
+
+def isolation_after_update(kind: int, mv: int, sv: int, val: str, val2: str) -> str:
+    """
+    An entity obtained BEFORE a commit is refreshed with entity.update() afterwards: it must show the committed data and still be
+    a private copy at every depth. 0 single-state entity (m0) after a metric transaction; 1 multi-state entity (pc0) after a
+    context transaction that changed pcs0 and CREATED pcs1 (a state the entity did not know); 2 single-state entity after a
+    descriptor transaction changed a nested descriptor member.
+    pre: 0 <= kind <= 2
+    pre: mv >= 0
+    pre: sv >= 0
+    pre: len(val) <= 2
+    pre: len(val2) <= 2
+    post: __return__ == 'ok'
+    """
+    orc = Oracle()
+    try:
+        if val == val2:
+            return 'ok'
+        pm, cap = _mk(mv, sv)
+        if kind == 0:
+            ent = pm.entities.by_handle('m0')
+            with pm.metric_state_transaction(set_determination_time=False) as tr:
+                tr.get_state('m0').MetricValue.Value = val
+        elif kind == 1:
+            ent = pm.entities.by_handle('pc0')
+            with pm.context_state_transaction() as tr:
+                tr.get_context_state('pcs0').CoreData.Givenname = val
+                new = tr.mk_context_state('pc0', 'pcs1')
+                new.CoreData = pm_types.PatientDemographicsCoreData()
+                new.CoreData.Givenname = val
+                new.Validator = [pm_types.InstanceIdentifier('root')]
+        else:
+            ent = pm.entities.by_handle('m0')
+            with pm.descriptor_transaction() as tr:
+                tr.get_descriptor('m0').Unit.Code = val
+        after_commit = _snap(pm)
+        ent.update()
+        if kind == 0:
+            orc.check(ent.state.MetricValue.Value == val, 'update-does-not-show-committed-data')
+            ent.state.MetricValue.Value = val2
+            ent.state.BodySite.append(pm_types.CodedValue(val2))
+            ent.descriptor.Unit.Code = val2
+        elif kind == 1:
+            orc.check('pcs1' in ent.states and ent.states['pcs0'].CoreData.Givenname == val, 'update-does-not-show-committed-data')
+            ent.states['pcs0'].CoreData.Givenname = val2
+            ent.states['pcs1'].CoreData.Givenname = val2
+            ent.states['pcs1'].Validator.append(pm_types.InstanceIdentifier(val2))
+            ent.states['pcs1'].ContextAssociation = CA.DISASSOCIATED
+        else:
+            orc.check(ent.descriptor.Unit.Code == val, 'update-does-not-show-committed-data')
+            ent.descriptor.Unit.Code = val2
+            ent.state.MetricValue.Value = val2
+        _same(pm, orc, after_commit, 'write-to-updated-entity-changed-mdib')
+    except Exception as ex:  # noqa: BLE001
+        return exc_result(orc, ex)
+    return orc.result()
